@@ -459,12 +459,12 @@ CHECKS["C18"] = {
         {"pkg": "./pkg/supervisor", "entry": "VerifC18_Died", "reach": ["done-stays-done", "canceled", "dead"], "opts": {"z3": "z3-new"}},
         {"pkg": "./pkg/supervisor", "entry": "VerifC18_GC", "reach": ["rescheduled", "nothing-to-restart"], "opts": {"z3": "z3-new"},
          "shards": {"quick": ["shape=0,1,2,3", "shape=4", "shape=5", "shape=6"]}},
-        {"pkg": "./pkg/supervisor", "entry": "VerifC18_KillAndWrapper", "reach": ["end"], "opts": {"z3": "z3-new"}},
+        {"pkg": "./pkg/supervisor", "entry": "VerifC18_KillAndWrapper", "reach": ["end", "scheduled-after-cancellation"], "opts": {"z3": "z3-new"}},
         {"pkg": "./pkg/supervisor", "entry": "VerifC18_Loop", "reach": ["end", "restarted", "restart-waited"], "opts": {"z3": "z3-new", "clockfiles": "pkg/supervisor/supervisor_processor.go"},
          "shards": {"quick": ["ticks=2"], "thorough": ["ticks=2", "ticks=3;withChild=0", "ticks=3;withChild=1"]}},
     ],
     "bounds": {"quick": {"loop": "the REAL processor loop (New, processor, processSchedule, processDied, processGC, processKill, Run, Signal) with cooperative goroutines and a harness-fired scan ticker: a root service, optionally with one child; the first two instances of the root and of the child each behave in one of up to seven ways (return nil / error / panic / healthy until cancelled / done / healthy with wrapped context error / slow to stop after cancellation); two scans (three when a restart has to wait for a slow child), then cancellation of the supervisor's context",
-                         "decisions": "the supervisor's sequential decision procedures on the real code - processDied, processGC (run twice), processKill, the start wrapper of processSchedule - over all seven tree shapes with <= 4 nodes and depth <= 3 (single child, grouped and ungrouped siblings, chains, a child with grouped children); every node's state symbolic (5 states; DEAD/CANCELED with cancelled context, as the supervisor itself produces them); death messages nil / context.Canceled / wrapped context.Canceled / other error; service exits: nil, error, panic (panic capture on)"},
+                         "decisions": "the supervisor's sequential decision procedures on the real code - processDied, processGC (run twice), processKill, the start wrapper of processSchedule - over all seven tree shapes with <= 4 nodes and depth <= 3 (single child, grouped and ungrouped siblings, chains, a child with grouped children); every node's state symbolic (5 states; DEAD/CANCELED with cancelled context, as the supervisor itself produces them); death messages nil / context.Canceled / wrapped context.Canceled / other error; service exits: nil, error, panic (panic capture on); a schedule request for a node whose context was cancelled during its back-off still ends in a state the restart scan can work with; the rescheduling goroutines sleep (yield) before they read what they send"},
                "thorough": {"loop": "three scans, a third instance of the root that runs or panics"}},
     "outside": "PARTIAL (DESIGN 7): pre-emptive interleavings of the processor with running services (the loop entry runs them cooperatively: a goroutine runs until it blocks), the 1 ms scan timing, back-off durations (arbitrary in the model) and everything only the race detector can tell are outside; 'never two instances at once' is decided through the scan's precondition (only fully stopped subtrees are rescheduled, nothing is scheduled twice) given that DEAD/CANCELED are only written after the service function returned (start wrapper harness)",
     "assumptions": ["context model (derived contexts with parent links, cancellation propagation, values)", "backoff.NextBackOff returns an arbitrary non-negative duration; time.Sleep is a no-op; regexp name check always passes",
